@@ -1,17 +1,33 @@
 (* Case type and checks for C14 (ConnState hook follows the documented state machine). *)
-From FH Require Import Model.Base Gen.GenC10 Model.ConnOpt Model.Serve Spec.ServeSpec Check.ServeCheck.
+From FH Require Import Model.Base Gen.GenC10 Gen.GenC14 Model.ConnOpt Model.Serve Spec.ServeSpec Check.ServeCheck.
 Open Scope nat_scope.
 
-(* One connection history.  states = the hook calls the implementation made for this connection;
+(* The harness writes a hook call as the integer value of the ConnState it received; st decodes it with the
+   constants regenerated from server.go (GenC14) — an unknown value becomes StClosed-after-New nonsense via the
+   last branch, which the language oracle rejects unless it really is StateClosed. *)
+Definition st (z : Z) : conn_state :=
+  if Z.eqb z StateNew then StNew
+  else if Z.eqb z StateActive then StActive
+  else if Z.eqb z StateIdle then StIdle
+  else if Z.eqb z StateHijacked then StHijacked
+  else StClosed.
+Definition state_code (s : conn_state) : Z :=
+  match s with
+  | StNew => StateNew | StActive => StateActive | StIdle => StateIdle
+  | StHijacked => StateHijacked | StClosed => StateClosed
+  end.
+
+(* One connection history.  gone = Some k: Shutdown closed the idle connection while the first byte of request k
+   was being read (the harness forces this order).  states = the hook calls the implementation made for this connection;
    actives = for every StateActive call: (bytes the client had handed to the connection when the hook ran,
    total length of the requests completed before); cs = the chunks the server's Read calls returned. *)
 Inductive c14case :=
-| C14 (en : entry) (ad : admission) (cfg : scfg) (ops : list (list hop)) (cs : list bytes) (t : tail)
+| C14 (en : entry) (ad : admission) (cfg : scfg) (ops : list (list hop)) (gone : option N) (cs : list bytes) (t : tail)
       (states : list conn_state) (actives : list (Z * Z)).
 
 Definition corr_ok (c : c14case) : bool :=
   match c with
-  | C14 en ad cfg ops cs t states _ => list_eqb state_eqb (sts (run en ad cfg ops [] None cs t)) states
+  | C14 en ad cfg ops gone cs t states _ => list_eqb state_eqb (sts (run_gone en ad cfg ops gone cs t)) states
   end.
 
 Definition count_active (l : list conn_state) : nat :=
@@ -20,7 +36,7 @@ Definition count_active (l : list conn_state) : nat :=
 (* the property, judged on the implementation's hook calls *)
 Definition prop_ok (c : c14case) : bool :=
   match c with
-  | C14 _ _ _ _ _ _ states actives =>
+  | C14 _ _ _ _ _ _ _ states actives =>
       accepts states
       && (length actives =? count_active states)
       && forallb (fun p => Z.ltb (snd p) (fst p)) actives
